@@ -154,7 +154,7 @@ func ruleDeclaredOrder(c *eng.Ctx) {
 		if decl != nil {
 			for _, h := range eng.Cluster(fn, 2) {
 				for _, ci := range eng.Calls(h, false, func(string, ssa.CallInstruction) bool { return true }) {
-					if call, ok := ci.(*ssa.Call); ok && call.Call.StaticCallee() == decl && dcall == nil {
+					if call, ok := ci.(*ssa.Call); ok && eng.StaticCallee(call) == decl && dcall == nil {
 						dcall = call
 						sel = h
 					}
@@ -276,7 +276,7 @@ func ruleDeclaredOrder(c *eng.Ctx) {
 		c.Check(okMan, R, "epubdoc.(*Reader).loadChapters#manifest", fn.Pos(), "manifest item found by the spine item's idref", "the manifest is not looked up with the spine item's idref")
 		okHref := false
 		if res := epubHrefResolver(p); res != nil {
-			for _, ci := range eng.Calls(fn, false, func(_ string, ci ssa.CallInstruction) bool { return ci.Common().StaticCallee() == res }) {
+			for _, ci := range eng.Calls(fn, false, func(_ string, ci ssa.CallInstruction) bool { return eng.StaticCallee(ci) == res }) {
 				for _, a := range ci.Common().Args {
 					for v := range eng.Slice(a, nil) {
 						if f, ok := eng.AsField(v); ok && f.Field == "Href" {
@@ -307,7 +307,7 @@ func epubHrefResolver(p *eng.Prog) *ssa.Function {
 	if lc := p.Func("epubdoc.(*Reader).loadChapters"); lc != nil {
 		var found []*ssa.Function
 		for _, ci := range eng.Calls(lc, false, func(string, ssa.CallInstruction) bool { return true }) {
-			cal := ci.Common().StaticCallee()
+			cal := eng.StaticCallee(ci)
 			if cal == nil || cal.Pkg != lc.Pkg || cal.Blocks == nil {
 				continue
 			}
